@@ -14,7 +14,7 @@ continuation writes exactly the same tables.
 
 namespace Continuum
 
-/-- equal except for the version-object cache -/
+/-- equal except for the version-object cache (and the flag that says it was emptied) -/
 def sameButCache (a b : St) : Prop :=
   a.db = b.db ∧ a.committed = b.committed ∧ a.err = b.err ∧
   a.uow.map (fun u => (u.cur, u.ops, u.pending)) = b.uow.map (fun u => (u.cur, u.ops, u.pending)) ∧
@@ -24,8 +24,8 @@ def sameButCache (a b : St) : Prop :=
 theorem sp_same_cases {a b : St} (h : sameButCache a b) :
     (∃ db c err sa sb, a = ⟨db, c, none, sa, err⟩ ∧ b = ⟨db, c, none, sb, err⟩ ∧
       sa.map (fun p => (p.1, p.2.map (fun u => (u.cur, u.ops, u.pending)))) = sb.map (fun p => (p.1, p.2.map (fun u => (u.cur, u.ops, u.pending))))) ∨
-    (∃ db c err sa sb cur ops pend va vb, a = ⟨db, c, some ⟨cur, ops, va, pend⟩, sa, err⟩ ∧
-      b = ⟨db, c, some ⟨cur, ops, vb, pend⟩, sb, err⟩ ∧
+    (∃ db c err sa sb cur ops pend va vb la lb, a = ⟨db, c, some ⟨cur, ops, va, pend, la⟩, sa, err⟩ ∧
+      b = ⟨db, c, some ⟨cur, ops, vb, pend, lb⟩, sb, err⟩ ∧
       sa.map (fun p => (p.1, p.2.map (fun u => (u.cur, u.ops, u.pending)))) = sb.map (fun p => (p.1, p.2.map (fun u => (u.cur, u.ops, u.pending))))) := by
   obtain ⟨h1, h2, h3, h4, h5⟩ := h
   cases a with
@@ -47,7 +47,7 @@ theorem sp_same_cases {a b : St} (h : sameButCache a b) :
           simp only [Option.map_some, Option.some.injEq, Prod.mk.injEq] at h4
           obtain ⟨e1, e2, e3⟩ := h4
           subst e1 e2 e3
-          exact Or.inr ⟨_, _, _, _, _, _, _, _, _, _, rfl, rfl, h5⟩
+          exact Or.inr ⟨_, _, _, _, _, _, _, _, _, _, _, _, rfl, rfl, h5⟩
 
 /-- the part of a savepoint's memory that is not cache -/
 theorem sp_key_tail {sa sb : List (Db × Option Uow)}
@@ -59,8 +59,8 @@ theorem sp_key_tail {sa sb : List (Db × Option Uow)}
 
 theorem sp_key_restore {x y : Option Uow}
     (h : x.map (fun u => (u.cur, u.ops, u.pending)) = y.map (fun u => (u.cur, u.ops, u.pending))) :
-    (x.map (fun u => ({ u with vobjs := [] } : Uow))).map (fun u => (u.cur, u.ops, u.pending)) =
-    (y.map (fun u => ({ u with vobjs := [] } : Uow))).map (fun u => (u.cur, u.ops, u.pending)) := by
+    (x.map (fun u => ({ u with vobjs := [], lookup := true } : Uow))).map (fun u => (u.cur, u.ops, u.pending)) =
+    (y.map (fun u => ({ u with vobjs := [], lookup := true } : Uow))).map (fun u => (u.cur, u.ops, u.pending)) := by
   rw [Option.map_map, Option.map_map]
   exact h
 
@@ -108,21 +108,21 @@ theorem step_sameButCache (cfg : Cfg) (a b : St) (e : Ev) (h : sameButCache a b)
     exact ⟨h2, h2, h3, rfl, rfl⟩
   | afterFlush =>
     rcases sp_same_cases h with ⟨db, c, err, sa, sb, rfl, rfl, hs⟩ |
-      ⟨db, c, err, sa, sb, cur, ops, pend, va, vb, rfl, rfl, hs⟩
+      ⟨db, c, err, sa, sb, cur, ops, pend, va, vb, la, lb, rfl, rfl, hs⟩
     · exact ⟨rfl, rfl, rfl, rfl, hs⟩
     · cases cur with
       | none => exact ⟨rfl, rfl, rfl, rfl, hs⟩
       | some T => exact ⟨rfl, rfl, rfl, rfl, hs⟩
   | beforeFlush objs newId pm =>
     rcases sp_same_cases h with ⟨db, c, err, sa, sb, rfl, rfl, hs⟩ |
-      ⟨db, c, err, sa, sb, cur, ops, pend, va, vb, rfl, rfl, hs⟩
+      ⟨db, c, err, sa, sb, cur, ops, pend, va, vb, la, lb, rfl, rfl, hs⟩
     · simp only [step, createTx, St.uowD, Option.getD]
       cases (!(objs.any (objModified cfg) || pm)) <;> exact ⟨rfl, rfl, rfl, rfl, hs⟩
     · simp only [step, createTx, St.uowD, Option.getD]
       cases (!(objs.any (objModified cfg) || pm)) <;> cases cur <;> exact ⟨rfl, rfl, rfl, rfl, hs⟩
   | _ =>
     rcases sp_same_cases h with ⟨db, c, err, sa, sb, rfl, rfl, hs⟩ |
-      ⟨db, c, err, sa, sb, cur, ops, pend, va, vb, rfl, rfl, hs⟩ <;>
+      ⟨db, c, err, sa, sb, cur, ops, pend, va, vb, la, lb, rfl, rfl, hs⟩ <;>
     simp only [step, createTx, St.uowD, Option.getD] <;> (repeat' split) <;>
         exact ⟨rfl, rfl, rfl, rfl, hs⟩
 
